@@ -796,16 +796,24 @@ def differential(ctx: fw.Ctx) -> None:
     env = Env()
     try:
         cases: list[fw.Case] = []
+        seen_terms: set[str] = set()
         for desc in corpus_descs(ctx) + patch_obj_descs():
             if desc.get('fn') != 'patch_obj':
                 continue
             o = run_patch_obj(env, desc)
             o['env'] = env
             try:
-                cases.append(patch_obj_case(o))
+                c = patch_obj_case(o)
             except cq.Unencodable as e:
                 ctx.correspondence_break('D:patch_obj', {'unencodable': str(e), 'case': desc})
                 continue
+            # a fault / foreign write planned for a request which is never sent leaves the very same run: evaluate it once
+            if c.term in seen_terms:
+                ctx.count('fn_product', 'same-run-as-an-earlier-case')
+                continue
+            seen_terms.add(c.term)
+            ctx.count('fn_product', 'distinct-run')
+            cases.append(c)
             monitor_patch_obj(ctx, o)
             log = o['sess'].log
             ctx.count('fn_requests_sent', str(len(log)))
@@ -825,10 +833,14 @@ def differential(ctx: fw.Ctx) -> None:
         for desc in [d for d in corpus_descs(ctx) if d.get('fn') == 'apply'] + apply_descs():
             o = run_apply(env, desc)
             try:
-                acases.append(apply_case(o))
+                c = apply_case(o)
             except cq.Unencodable as e:
                 ctx.correspondence_break('D:apply', {'unencodable': str(e), 'case': desc})
                 continue
+            if c.term in seen_terms:
+                continue
+            seen_terms.add(c.term)
+            acases.append(c)
             monitor_apply(ctx, o)
             p = bool(o['content']) or bool(o['fns'])
             d = min(desc['delays']) if desc['delays'] else None
